@@ -52,6 +52,12 @@ def l5 : Link ℚ := ⟨5, 7, 0, 0, 0, 300, [⟨0, 1⟩, ⟨300, 2⟩], [], some
 def l6 : Link ℚ := ⟨6, 4, 0, 0, 0, 200, [⟨0, 7⟩, ⟨200, 9⟩], [], some ⟨true, [], []⟩, [], []⟩
 def net : List (Link ℚ) := [l0, l1, l2, l3, l4, l5, l6]
 def links : List (Link ℚ) := [l1, l2, l3]
+/-- the example network without the invalid one-point link -/
+def netV : List (Link ℚ) := [l0, l1, l2, l3, l0, l5, l6]
+theorem netV_ok : ∀ l ∈ netV, l.elevs.length ≠ 1 := by
+  intro l hl
+  simp only [netV, List.mem_cons, List.not_mem_nil, or_false] at hl
+  rcases hl with rfl | rfl | rfl | rfl | rfl | rfl | rfl <;> decide
 
 theorem res123 : Resolves net [1, 2, 3] links := rfl
 
@@ -360,32 +366,24 @@ example : ∀ t, extend Ex.u32 Ex.gq Ex.net (Tpc.new Ex.par) [1, 5] ≠ .ok t :=
 def C06_reject_statement : Prop :=
   ∀ (toU32 : α → Nat) (g : GeoConsts α) (net : List (Link α)) (t t1 : Tpc α)
     (pre : List Nat) (idx : Nat) (rest : List Nat) (l : Link α),
-    -- needed to split the call (`C06_extend_append`); holds in every validated network
-    (∀ l ∈ net, l.elevs.length ≠ 1) →
     extend toU32 g net t pre = .ok t1 → net[idx]? = some l →
     (idx = 0 ∨ linkedOpt (prevIdx t1.linkPoints) l = false) →
     ∃ tag, extend toU32 g net t (pre ++ idx :: rest) = .err tag
 
 theorem C06_reject : C06_reject_statement (α := α) := by
-  intro toU32 g net t t1 pre idx rest l hnet hpre hl hbad
+  intro toU32 g net t t1 pre idx rest l hpre hl hbad
   obtain ⟨n1, _⟩ := extend_ok_ne_nil toU32 g net hpre
   obtain ⟨L, last, hL⟩ := eq_append_of_ne_nil n1
   have hp : prevIdx t1.linkPoints = L.getLast?.map (·.linkIdx) := by
     unfold prevIdx; rw [hL, List.dropLast_concat]
   rw [hp] at hbad
-  exact extend_reject toU32 g net t t1 pre idx rest L last l
-    (fun _ i _ l hl => hnet l (List.mem_of_getElem? hl)) hpre hL hl hbad
+  exact extend_reject_mid toU32 g net t t1 pre idx rest L last l hpre hL hl hbad
 
-example : ∃ tag, extend Ex.u32 Ex.gq [Ex.l0, Ex.l1, Ex.l2, Ex.l3, Ex.l0, Ex.l5] (Tpc.new Ex.par)
-    ([1, 2] ++ 5 :: [3]) = .err tag := by
-  have hnet : ∀ l ∈ [Ex.l0, Ex.l1, Ex.l2, Ex.l3, Ex.l0, Ex.l5], l.elevs.length ≠ 1 := by
-    intro l hl
-    simp only [List.mem_cons, List.not_mem_nil, or_false] at hl
-    rcases hl with rfl | rfl | rfl | rfl | rfl | rfl <;> decide
+example : ∃ tag, extend Ex.u32 Ex.gq Ex.net (Tpc.new Ex.par) ([1, 2] ++ 5 :: [3]) = .err tag := by
   obtain ⟨t1, h1, hp⟩ := okAnd_exists
-    (r := extend Ex.u32 Ex.gq [Ex.l0, Ex.l1, Ex.l2, Ex.l3, Ex.l0, Ex.l5] (Tpc.new Ex.par) [1, 2])
+    (r := extend Ex.u32 Ex.gq Ex.net (Tpc.new Ex.par) [1, 2])
     (p := fun t1 => linkedOpt (prevIdx t1.linkPoints) Ex.l5 == false) (by decide +kernel)
-  exact C06_reject _ _ _ _ t1 [1, 2] 5 [3] Ex.l5 hnet h1 rfl (Or.inr (by simpa using hp))
+  exact C06_reject _ _ _ _ t1 [1, 2] 5 [3] Ex.l5 h1 rfl (Or.inr (by simpa using hp))
 
 /-- the first link of a call against the last link already in the path (any state) -/
 def C06_reject_first_statement : Prop :=
@@ -500,6 +498,14 @@ theorem C06_elev : C06_elev_statement (α := α) := by
   rw [h4 x hx1 hx2, routeElev_eq]
   dsimp only
   rw [sub_zero]
+
+example : ∃ t, extend Ex.u32 Ex.gq Ex.net (Tpc.new Ex.par) [1, 2, 3] = .ok t ∧
+    ∃ hi : 3 + 1 < t.grades.length, ∀ x, t.grades[3].off ≤ x → x ≤ t.grades[3 + 1].off →
+      prcVal t.grades[3] x = routeElev Ex.links x := by
+  obtain ⟨t, h⟩ := Ex.ext123
+  have hlen : t.grades.length = 6 := by
+    rw [(C06_counts _ _ _ _ _ _ t h Ex.res123 Ex.oklinks).2.2.2.2.1]; decide
+  exact ⟨t, h, by omega, (C06_elev _ _ _ _ _ _ t h Ex.res123 Ex.oklinks 3 (by omega)).2.2.2⟩
 
 /-- every position of the route lies in some segment, so `C06_elev` determines the elevation at every
     `x ∈ [0, total length]` -/
@@ -679,6 +685,14 @@ def C06_extend_append_statement : Prop :=
 theorem C06_extend_append : C06_extend_append_statement (α := α) :=
   fun toU32 g net t a b h => extend_append toU32 g net t a b h
 
+example : extend Ex.u32 Ex.gq Ex.net (Tpc.new Ex.par) ([1] ++ [2, 3]) =
+    (extend Ex.u32 Ex.gq Ex.net (Tpc.new Ex.par) [1]).bind
+      (fun t' => extend Ex.u32 Ex.gq Ex.net t' [2, 3]) :=
+  C06_extend_append _ _ _ _ _ _ (by
+    intro _ i hi l hl
+    rw [List.mem_singleton.mp hi] at hl
+    cases hl; decide)
+
 /-- **C06 (1, any partition).**  Splitting a route into any non-empty sequence of successive `extend`
     calls (`extendSeq`) gives the outcome of the single call on the whole route. -/
 def C06_partition_statement : Prop :=
@@ -696,15 +710,6 @@ theorem C06_partition_indep (toU32 : α → Nat) (g : GeoConsts α) (net : List 
     (h : p1.flatten = p2.flatten) :
     extendSeq toU32 g net t p1 = extendSeq toU32 g net t p2 := by
   rw [C06_partition toU32 g net t p1 hnet h1, C06_partition toU32 g net t p2 hnet h2, h]
-
-namespace Ex
-/-- the example network without the invalid one-point link -/
-def netV : List (Link ℚ) := [l0, l1, l2, l3, l0, l5, l6]
-theorem netV_ok : ∀ l ∈ netV, l.elevs.length ≠ 1 := by
-  intro l hl
-  simp only [netV, List.mem_cons, List.not_mem_nil, or_false] at hl
-  rcases hl with rfl | rfl | rfl | rfl | rfl | rfl | rfl <;> decide
-end Ex
 
 example : extendSeq Ex.u32 Ex.gq Ex.netV (Tpc.new Ex.par) [[1], [], [2, 3]] =
     extendSeq Ex.u32 Ex.gq Ex.netV (Tpc.new Ex.par) [[1, 2], [3]] :=
@@ -730,6 +735,41 @@ theorem C06_inv : C06_inv_statement (α := α) :=
 example : ∃ t, extend Ex.u32 Ex.gq Ex.net (Tpc.new Ex.par) [1, 2, 3] = .ok t ∧ Inv t := by
   obtain ⟨t, h⟩ := Ex.ext123
   exact ⟨t, h, C06_inv.2 _ _ _ _ _ _ t h Ex.res123 Ex.oklinks (C06_inv.1 _)⟩
+
+/-- non-vacuity of the any-state theorems: extend by `[1]`, then by `[2, 3]` -/
+example : ∃ t1 t2, extend Ex.u32 Ex.gq Ex.net (Tpc.new Ex.par) [1] = .ok t1 ∧
+    extend Ex.u32 Ex.gq Ex.net t1 [2, 3] = .ok t2 ∧ countsConsistent t2 = true ∧ Inv t2 := by
+  obtain ⟨t1, h1, _⟩ := okAnd_exists (r := extend Ex.u32 Ex.gq Ex.net (Tpc.new Ex.par) [1])
+    (p := fun _ => true) (by decide +kernel)
+  obtain ⟨t2, h2, _⟩ := okAnd_exists
+    (r := (extend Ex.u32 Ex.gq Ex.net (Tpc.new Ex.par) [1]).bind (extend Ex.u32 Ex.gq Ex.net · [2, 3]))
+    (p := fun _ => true) (by decide +kernel)
+  rw [h1, bind_ok] at h2
+  have ok1 : ∀ l ∈ [Ex.l1], LinkOK l := fun l hl => by
+    rw [List.mem_singleton.mp hl]; exact Ex.ok1
+  have ok23 : ∀ l ∈ [Ex.l2, Ex.l3], LinkOK l := fun l hl => Ex.oklinks l (by
+    simp only [List.mem_cons, List.not_mem_nil, or_false] at hl
+    rcases hl with rfl | rfl <;> simp [Ex.links])
+  have inv1 : Inv t1 := C06_inv.2 _ _ _ _ [Ex.l1] _ t1 h1 rfl ok1 (C06_inv.1 _)
+  have cc1 : countsConsistent t1 = true := (C06_counts _ _ _ _ _ [Ex.l1] t1 h1 rfl ok1).1
+  exact ⟨t1, t2, h1, h2,
+    C06_counts_preserved _ _ _ _ [Ex.l2, Ex.l3] t1 t2 h2 rfl ok23 inv1 cc1,
+    C06_inv.2 _ _ _ _ [Ex.l2, Ex.l3] t1 t2 h2 rfl ok23 inv1⟩
+
+example : ∃ t1, extend Ex.u32 Ex.gq Ex.net (Tpc.new Ex.par) [1] = .ok t1 ∧
+    ((∃ t', extend Ex.u32 Ex.gq Ex.net t1 [2, 3] = .ok t') ↔
+      (∀ i ∈ [2, 3], i ≠ 0) ∧ contig (prevIdx t1.linkPoints) [Ex.l2, Ex.l3] = true ∧
+      ∃ sp, routeSpeeds Ex.u32 t1.par t1.speedPoints 1000 [Ex.l2, Ex.l3] = .ok sp) := by
+  obtain ⟨t1, h1, hp⟩ := okAnd_exists (r := extend Ex.u32 Ex.gq Ex.net (Tpc.new Ex.par) [1])
+    (p := fun t => t.linkPoints.getLast?.map (·.off) == some 1000) (by decide +kernel)
+  have ok1 : ∀ l ∈ [Ex.l1], LinkOK l := fun l hl => by
+    rw [List.mem_singleton.mp hl]; exact Ex.ok1
+  have ok23 : ∀ l ∈ [Ex.l2, Ex.l3], LinkOK l := fun l hl => Ex.oklinks l (by
+    simp only [List.mem_cons, List.not_mem_nil, or_false] at hl
+    rcases hl with rfl | rfl <;> simp [Ex.links])
+  have inv1 : Inv t1 := C06_inv.2 _ _ _ _ [Ex.l1] _ t1 h1 rfl ok1 (C06_inv.1 _)
+  exact ⟨t1, h1, C06_accept_iff_general Ex.u32 Ex.gq Ex.net t1 [2, 3] [Ex.l2, Ex.l3] rfl ok23 inv1
+    (extend_ok_ne_nil _ _ _ h1).2.2.2 1000 (by simpa using hp)⟩
 
 end
 
@@ -880,18 +920,18 @@ theorem C06_wrap_counterexample : ¬ C06_wrap_statement (α := ℚ) := by
   revert this
   decide +kernel
 
-/-- the effect on the example route: link 3 turns by `3/10` over 800 m, but its curve coefficient is
-    that of a turn by `57/10` -/
+/-- the effect on the example route: link 3 turns by `3/10` over 800 m (`59/10 → 1/5` through north),
+    but its curve coefficient is computed from a curvature of `57/10 / 800` -/
 theorem C06_wrap_route_counterexample :
-    curveCoeff Ex.gq Ex.par (1/5 - 59/10) 800 = curveCoeff Ex.gq Ex.par (57/10) 800 ∧
+    curveCoeff Ex.gq Ex.par (1/5 - 59/10) 800 = curveOf Ex.gq Ex.par (57/10 / 800) ∧
     curveCoeff Ex.gq Ex.par (1/5 - 59/10) 800 ≠ curveCoeff Ex.gq Ex.par (3/10) 800 ∧
     -- the opposite direction (`1/5 → 59/10`, `Δh = +57/10`) is wrapped correctly
-    curveCoeff Ex.gq Ex.par (59/10 - 1/5) 800 = curveCoeff Ex.gq Ex.par (3/10) 800 := by
+    curveCoeff Ex.gq Ex.par (59/10 - 1/5) 800 = curveCoeff Ex.gq Ex.par (-(3/10)) 800 := by
   have w1 : wrapAbs Ex.gq (1/5 - 59/10) = 57/10 := by decide +kernel
-  have w2 : wrapAbs Ex.gq (57/10) = 57/10 := by decide +kernel
   have w3 : wrapAbs Ex.gq (3/10) = 3/10 := by decide +kernel
   have w4 : wrapAbs Ex.gq (59/10 - 1/5) = 3/10 := by decide +kernel
-  simp only [curveCoeff_eq, w1, w2, w3, w4, true_and]
+  have w5 : wrapAbs Ex.gq (-(3/10)) = 3/10 := by decide +kernel
+  simp only [curveCoeff_eq, w1, w3, w4, w5, true_and, and_true]
   norm_num [curveOf, Ex.gq, Ex.par]
 
 end Altrios.Proofs.C06
